@@ -41,20 +41,28 @@ fn flatten_object(prefix: &str, val: &Value, config: &mut HashMap<String, Value>
 
 fn to_emmyrc_json(config: &FlattenConfigObject) -> Value {
     let mut emmyrc = Value::Object(Default::default());
-    for (k, v) in &config.config {
+    // Sorted, so that the result does not depend on hash order when one key is both a value and
+    // a prefix of another key (`{"a": 1, "a.b": 2}`): the shorter key comes first, the longer wins.
+    let mut entries: Vec<(&String, &Value)> = config.config.iter().collect();
+    entries.sort_by(|a, b| a.0.cmp(b.0));
+    for (k, v) in entries {
         let keys: Vec<&str> = k.split('.').collect();
         let mut current = &mut emmyrc;
-        for i in 0..keys.len() {
-            let key = keys[i];
-            if i == keys.len() - 1 {
-                current[key] = v.clone();
-            } else {
-                current = current
-                    .as_object_mut()
-                    .expect("always an object")
-                    .entry(key.to_string())
-                    .or_insert(Value::Object(Default::default()));
+        for (i, key) in keys.iter().enumerate() {
+            if !current.is_object() {
+                // a shorter key already put a plain value here
+                *current = Value::Object(Default::default());
             }
+            let Some(map) = current.as_object_mut() else {
+                break;
+            };
+            if i == keys.len() - 1 {
+                map.insert(key.to_string(), v.clone());
+                break;
+            }
+            current = map
+                .entry(key.to_string())
+                .or_insert_with(|| Value::Object(Default::default()));
         }
     }
     emmyrc
